@@ -186,3 +186,46 @@ Proof.
     apply (loop_calls a b calls [] [] a0 b0 HF Ch); constructor.
   - intros r1 r2. exists r1. split; [apply loop_from_ivs|exists []; rewrite app_nil_r; reflexivity].
 Qed.
+
+(* ---------------------------------------------------------------------------------------------- *)
+(* same-kind inputs: aligned tight calls hold equally many rows of both inputs                      *)
+(* ---------------------------------------------------------------------------------------------- *)
+
+Lemma split_by_bound (x : Z) : forall p1 s1 p2 s2,
+  Forall (fun t => t < x) p1 -> Forall (fun t => x <= t) s1 ->
+  Forall (fun t => t < x) p2 -> Forall (fun t => x <= t) s2 ->
+  p1 ++ s1 = p2 ++ s2 -> length p1 = length p2 /\ s1 = s2.
+Proof.
+  induction p1 as [|u p1 IH]; intros s1 p2 s2 H1 H2 H3 H4 E.
+  - destruct p2 as [|v p2]; [split; [reflexivity|exact E]|].
+    cbn in E. subst s1. inversion H2; subst. inversion H3; subst. lia.
+  - destruct p2 as [|v p2].
+    + cbn in E. subst s2. inversion H4; subst. inversion H1; subst. lia.
+    + cbn in E. inversion E; subst. inversion H1; subst. inversion H3; subst.
+      destruct (IH s1 p2 s2) as [A B]; auto. split; [cbn; lia|exact B].
+Qed.
+
+Lemma calls_equal_len : forall calls s e,
+  Forall call_ok calls -> chain s (map fst calls) e ->
+  map rt (rows1 calls) = map rt (rows2 calls) -> equal_len calls.
+Proof.
+  induction calls as [|[c1 c2] calls IH]; intros s e HF Ch HE; [constructor|].
+  inversion HF as [|? ? (W1 & W2 & T1 & T2 & E1 & E2) HF']; subst. cbn [fst snd map] in *.
+  cbn in Ch. destruct Ch as [Cs Ch].
+  destruct (calls_rows_ge calls (cend c1) e HF' Ch) as (A1 & A2 & _).
+  unfold rows1, rows2 in HE. cbn [flat_map fst snd] in HE. fold (rows1 calls) in HE. fold (rows2 calls) in HE.
+  rewrite !map_app in HE.
+  destruct (split_by_bound (cend c1) (map rt (crows c1)) (map rt (rows1 calls)) (map rt (crows c2)) (map rt (rows2 calls)))
+    as [L S]; auto.
+  - apply Forall_map. exact T1.
+  - apply Forall_map. exact A1.
+  - apply Forall_map. unfold tight in T2. rewrite E2 in T2. exact T2.
+  - apply Forall_map. exact A2.
+  - constructor; [cbn; rewrite !map_length in L; exact L|]. apply (IH (cend c1) e HF' Ch S).
+Qed.
+
+Theorem aligned_equal_len R1 R2 a b calls :
+  aligned R1 R2 a b calls -> map rt R1 = map rt R2 -> equal_len calls.
+Proof.
+  intros (_ & HF & Ch & <- & <-) HE. apply (calls_equal_len calls a b HF Ch HE).
+Qed.
